@@ -23,7 +23,7 @@ TECHNIQUE = ('small-scope enumeration of feature trajectories / count tables aga
              'over OpenMP schedules of the real compiled joint-count kernel (deviation-bounded, with write-set isolation runs)')
 RULE = ('X,Y: all integer arrays with frames<=3, features<=2, states<=3 for configurations with unequal feature and state counts '
         'x 8 integer dtypes (mixed pairs on a subset) x layouts {C,F,strided,negative stride} x n_x/n_y {None,exact,exact+1}; mixed integer widths with ids beyond the narrower type (127/128, 255/256, 300, 32767/32768); '
-        'bad ids (-1, n, frame mismatch; an id >= its own side\'s n but < the other side\'s n when n_x != n_y) must be rejected (forked child); uniform weights as 1/T, ones, a constant and integer multiplicities; schedules: T=1..4 threads, <=2 (T: <=4) deviations, '
+        'bad ids (-1, n, frame mismatch; an id >= its own side\'s n but < the other side\'s n when n_x != n_y) must be rejected (forked child), also -1 in a signed array next to an unsigned partner with a declared range that would hold its unsigned reinterpretation; uniform weights as 1/T, ones, a constant and integer multiplicities; schedules: T=1..4 threads, <=2 (T: <=4) deviations, '
         'isolation run per thread; MI laws on every table reached + all 2x2 and 2x3 tables over {0..3}; KL on all pairs of '
         'denominator-4 distributions (n=2,3); state=(X,Y,dtypes,layout,n mode | table | schedule); non-trivial = table with a '
         'zero cell and MI>0, or schedule with >1 enabled thread')
@@ -31,7 +31,7 @@ ASSUMPTIONS = ['MI/entropy identities compared at 1e-12 absolute (natural log)',
                'intra-chunk preemption covered by the write-set argument (per-thread partial count tables have disjoint support '
                'and sum to the total), not by enumeration',
                'NEP-49 poison allocator fills fresh numpy buffers with NaN during the run']
-GUARDS = {'kl_tiny': 20, 'wide_ids': 50, 'unequal_sides': 500, 'mixed_dtype': 100, 'strided': 100, 'rejected_bad_ids': 50, 'unequal_declared_counts': 50, 'multi_enabled': 50,
+GUARDS = {'kl_tiny': 20, 'wide_ids': 50, 'unequal_sides': 500, 'mixed_dtype': 100, 'strided': 100, 'rejected_bad_ids': 50, 'unequal_declared_counts': 50, 'mixed_signedness': 4, 'multi_enabled': 50,
           'tables_with_zero_cell': 500, 'rectangular_norm': 50, 'pooled': 100, 'weighted': 100, 'kl_pairs': 200}
 EXT = 'enspara.info_theory.libinfo'
 DTYPES = ('int8', 'int16', 'int32', 'int64', 'uint8', 'uint16', 'uint32', 'uint64')
@@ -419,6 +419,43 @@ def check_reject(ctx):
                         else:
                             ctx.violation('joint_counts:id_too_large_for_own_side:accepted', case,
                                           'state id %d on side %s accepted with n_x=%d n_y=%d; table %r' % (val, side, nx, ny, res[1]))
+    # mixed signed / unsigned element types: a negative id must be rejected even when the declared range is large enough to
+    # hold its unsigned reinterpretation (-1 -> 255 / 65535 / ...), and a valid large unsigned id must still be counted
+    for sdt, udt, big in (('int8', 'uint8', 255), ('int16', 'uint16', 65535), ('int8', 'uint16', 255), ('int32', 'uint32', 70000), ('int64', 'uint64', 70000)):
+        for side in ('X', 'Y'):
+            for n_big in (big + 1, big + 45):
+                S = np.array([[0], [-1], [1]], dtype=sdt)
+                U = np.array([[0], [1], [1]], dtype=udt)
+                X, Y = (S, U) if side == 'X' else (U, S)
+                nx, ny = (n_big, 2) if side == 'X' else (2, n_big)
+                if n_big > 1000:
+                    continue            # the table would be huge; the 8/16-bit pairs cover the mechanism
+                case = {'kind': 'reject', 'what': 'negative_id_mixed_signedness', 'dtypes': [sdt, udt], 'side': side, 'n': n_big}
+                ctx.ev()
+                ctx.state(('reject', 'mixed_sign', sdt, udt, side, n_big), nontrivial=True)
+                res = in_child(lambda X=X, Y=Y, nx=nx, ny=ny: np.argwhere(np.asarray(mi.joint_counts(X, Y, n_x=nx, n_y=ny)) > 0).tolist())
+                if res[0] == 'raised':
+                    ctx.guard('rejected_bad_ids')
+                    ctx.guard('mixed_signedness')
+                elif res[0] == 'crashed':
+                    ctx.violation('joint_counts:negative_id_mixed_signedness:crash', case, 'process died with signal %r on %r' % (res[1], case))
+                else:
+                    ctx.violation('joint_counts:negative_id_mixed_signedness:accepted', case,
+                                  'id -1 (%s) next to a %s partner accepted with n=%d; non-zero cells %r' % (sdt, udt, n_big, res[1]))
+        # valid data: ids that only the unsigned type can hold, against a signed partner of the same width
+        top = min(big, 300)
+        U = np.array([[0], [top], [1]], dtype=udt)
+        S = np.array([[0], [1], [1]], dtype=sdt)
+        for X, Y, nx, ny in ((U, S, top + 1, 2), (S, U, 2, top + 1)):
+            case = {'kind': 'reject', 'what': 'valid_large_unsigned_id', 'dtypes': [sdt, udt], 'top': top}
+            ctx.ev()
+            ctx.state(('accept', 'mixed_sign', sdt, udt, nx, ny), nontrivial=True)
+            res = in_child(lambda X=X, Y=Y, nx=nx, ny=ny: sorted(map(tuple, np.argwhere(np.asarray(mi.joint_counts(X, Y, n_x=nx, n_y=ny)) > 0).tolist())))
+            want = sorted((0, 0, int(a), int(b)) for a, b in zip(X[:, 0].tolist(), Y[:, 0].tolist()))
+            if res[0] != 'ok':
+                ctx.violation('joint_counts:valid_large_unsigned_id:%s' % res[0], case, 'valid ids up to %d (%s vs %s) were not counted: %r' % (top, udt, sdt, res))
+            elif sorted(set(map(tuple, res[1]))) != sorted(set(want)):
+                ctx.violation('joint_counts:valid_large_unsigned_id:wrong_cells', case, 'cells %r want %r' % (res[1], want))
     # frame-count mismatch
     for dt in ('int32', 'uint8'):
         ctx.ev()
